@@ -275,6 +275,11 @@ pub mod openssl {
         impl X509 {
             #[verifier::external_body]
             pub fn not_after(&self) -> (r: &super::asn1::Asn1TimeRef) ensures *r == self.not_after { unimplemented!() }
+            // notBefore: any instant (a CA may or may not backdate it)
+            #[verifier::external_body]
+            pub fn not_before(&self) -> (r: &super::asn1::Asn1TimeRef) { unimplemented!() }
+            #[verifier::external_body]
+            pub fn serial_number(&self) -> (r: &super::asn1::Asn1Integer) { unimplemented!() }
         }
         impl X509NameBuilder {
             #[verifier::external_body]
